@@ -261,8 +261,11 @@ func (p *peer) Dial(addr string, protoFunc ...ProtoFunc) (Session, *Status) {
 		}
 	}
 
+	if !sess.tryChangeStatus(statusOk, statusPreparing) {
+		// closed while the PostDial plugins ran
+		return nil, statConnClosed
+	}
 	Infof("dial ok (network:%s, addr:%s, id:%s)", p.network, addr, sess.ID())
-	sess.changeStatus(statusOk)
 	AnywayGo(sess.startReadAndHandle)
 	p.sessHub.set(sess)
 	return sess, nil
@@ -291,8 +294,11 @@ func (p *peer) ServeConn(conn net.Conn, protoFunc ...ProtoFunc) (Session, *Statu
 		sess.Close()
 		return nil, stat
 	}
+	if !sess.tryChangeStatus(statusOk, statusPreparing) {
+		// closed while the PostAccept plugins ran
+		return nil, statConnClosed
+	}
 	Infof("serve ok (network:%s, addr:%s, id:%s)", network, sess.RemoteAddr().String(), sess.ID())
-	sess.changeStatus(statusOk)
 	AnywayGo(sess.startReadAndHandle)
 	p.sessHub.set(sess)
 	return sess, nil
@@ -370,7 +376,11 @@ func (p *peer) serveListener(lis net.Listener, protoFunc ...ProtoFunc) error {
 			}
 			Infof("accept ok (network:%s, addr:%s, id:%s)", network, sess.RemoteAddr().String(), sess.ID())
 			p.sessHub.set(sess)
-			sess.changeStatus(statusOk)
+			if !sess.tryChangeStatus(statusOk, statusPreparing) {
+				// closed while the PostAccept plugins ran
+				p.sessHub.delete(sess.ID(), sess)
+				return
+			}
 			sess.startReadAndHandle()
 		})
 	}
